@@ -75,7 +75,8 @@ FINGERPRINTS = {
     "stepup/core/nglob.py:NamedGlob.will_change": ("b79ba12e9e9f9a28",),
     "stepup/core/nglob.py:NamedGlob.extend": ("7b49961d987ee00e",),
     "stepup/core/nglob.py:NamedGlob.reduce": ("164d006314f1b339",),
-    "stepup/core/executor.py:Executor._run_hash_job": ("d18aa73b3fe5cff5",),
+    # second shape: the result is applied only `if not self._is_stale_confirmation(hash_job)` (fix D17)
+    "stepup/core/executor.py:Executor._run_hash_job": ("d18aa73b3fe5cff5", "1c00d122f33c1535"),
 }
 
 
@@ -213,10 +214,47 @@ def _rescan_files_facts(tree):
 
 def _hash_job_facts(tree):
     fn = find_function(tree, "_run_hash_job", "Executor")
+    src = ast.unparse(fn)
     want = "if new_hash != hash_job.old_hash or hash_job.cause == HashUpdateCause.CONFIRMED:"
-    if want not in ast.unparse(fn):
+    if want not in src:
         raise TranslatorError("_run_hash_job: apply rule not recognised")
-    return {}
+    updates = [n for n in ast.walk(fn) if isinstance(n, ast.Call) and isinstance(n.func, ast.Attribute)
+               and n.func.attr == "update_file_hashes"]
+    if len(updates) != 1:
+        raise TranslatorError("_run_hash_job: expected exactly one update_file_hashes call")
+    guarded = "if not self._is_stale_confirmation(hash_job):" in src
+    if not guarded:
+        if "_is_stale_confirmation" in src:
+            raise TranslatorError("_run_hash_job: use of _is_stale_confirmation not recognised")
+        return {"stale_guard": False, "confirmation_states": []}
+    # the guard must be the statement that directly contains the update
+    ok = False
+    for node in ast.walk(fn):
+        if isinstance(node, ast.If) and ast.unparse(node.test) == "not self._is_stale_confirmation(hash_job)":
+            ok = (len(node.body) == 1 and not node.orelse and "update_file_hashes" in ast.unparse(node.body[0]))
+    if not ok:
+        raise TranslatorError("_run_hash_job: guard around update_file_hashes not recognised")
+    helper = find_function(tree, "_is_stale_confirmation", "Executor")
+    body = body_without_docstring(helper)
+    # if cause != CONFIRMED: return False ; file = find(File, path) ; if file is None: return True ;
+    # return file.get_state() not in (<states>)
+    shape = [ast.unparse(b) for b in body]
+    if len(shape) != 4 or shape[0] != "if hash_job.cause != HashUpdateCause.CONFIRMED:\n    return False" \
+            or shape[1] != "file = self.workflow.find(File, hash_job.path)" \
+            or shape[2] != "if file is None:\n    return True":
+        raise TranslatorError(f"_is_stale_confirmation: body not recognised: {shape!r}")
+    ret = body[3]
+    if not (isinstance(ret, ast.Return) and isinstance(ret.value, ast.Compare) and len(ret.value.ops) == 1
+            and isinstance(ret.value.ops[0], ast.NotIn) and ast.unparse(ret.value.left) == "file.get_state()"
+            and isinstance(ret.value.comparators[0], ast.Tuple)):
+        raise TranslatorError("_is_stale_confirmation: return expression not recognised")
+    states = []
+    for e in ret.value.comparators[0].elts:
+        u = ast.unparse(e)
+        if not u.startswith("FileState."):
+            raise TranslatorError(f"_is_stale_confirmation: state not recognised: {u}")
+        states.append(u.split(".")[1])
+    return {"stale_guard": True, "confirmation_states": states}
 
 
 def generate(check_fingerprints=True):
@@ -324,6 +362,10 @@ def generate(check_fingerprints=True):
         "(* shape flags read from the AST *)",
         f"Definition isdir_emits_self : bool := {'true' if facts['isdir_emits_self'] else 'false'}.",
         f"Definition commit_attached_only : bool := {'true' if facts['commit_attached_only'] else 'false'}.",
+        "(* Executor._run_hash_job: a CONFIRMED result is dropped when the node is gone or its state is not one of",
+        "   confirmation_states (Executor._is_stale_confirmation); false = no such guard in the code *)",
+        f"Definition stale_confirmation_guard : bool := {'true' if facts['stale_guard'] else 'false'}.",
+        f"Definition confirmation_states : list fstate := [{'; '.join('FS_' + n for n in facts['confirmation_states'])}].",
         "",
     ]
     return "\n".join(out), facts
